@@ -40,11 +40,14 @@ def run(sub, args=()):
 
 
 def confirm(name, prop, finding):
+    if name == "cli":
+        import native_cli
+        ok, info = native_cli.confirm_c15() if prop == "C15" else native_cli.confirm_c16()
+        return bool(ok), info
     ok, info = run(name)
     return bool(ok), info
 
 
 def replay(d, prop):
     name = d["kind"].split(":", 1)[1]
-    ok, info = run(name)
-    return bool(ok), info
+    return confirm(name, prop, None)
